@@ -1,7 +1,11 @@
-(* Correspondence cases for C04: (patch, target, options, schema projection) with the observed result of
-   walk.Walker{Sources: [target, patch], Visitor: merge2.Merger{}}.Walk() (= merge2.Merge /
-   patchstrategicmerge.Filter). [mismatches04] lists the indices where the model disagrees. *)
-From KV Require Export Yaml.Merge2 Corr.SchemaTable.
+(* Correspondence cases for C04.
+   CM: (patch, target, options, schema projection) with the observed result of
+       walk.Walker{Sources: [target, patch], Visitor: merge2.Merger{}}.Walk() (= merge2.Merge /
+       patchstrategicmerge.Filter): the whole result node is compared.
+   CI: (patch resource, target resource) with the observed outcome of api/resource Resource.ApplySmPatch:
+       outcome class, "resource deleted" (nil or empty), and the identity read back (GetKind / GetName /
+       GetNamespace) are compared. *)
+From KV Require Export Yaml.Merge2 Yaml.Merge2Identity Corr.SchemaTable.
 
 Record case04 := mk04 {
   c4_patch : node;
@@ -27,4 +31,40 @@ Definition agree04 (c : case04) : bool :=
   | r => oclass_eqb (c4_class c) (class_of r)
   end.
 
+Record case04i := mk04i {
+  ci_patch : node;                      (* the patch resource as handed to ApplySmPatch (allow annotations included) *)
+  ci_target : node;
+  ci_assoc_keys : list string;
+  ci_schema : sroots;
+  ci_nonstr : list string;
+  ci_class : oclass;
+  ci_deleted : bool;                    (* observed Resource.IsNilOrEmpty afterwards *)
+  ci_kind : string;                     (* observed GetKind / GetName / GetNamespace afterwards *)
+  ci_name : string;
+  ci_namespace : string
+}.
+
+Definition run04i (c : case04i) : res (option node) :=
+  apply_sm_patch (tree_schema (ci_schema c)) (ci_assoc_keys c) (fun s => str_in s (ci_nonstr c))
+                 (ci_patch c) (ci_target c).
+
+Definition agree04i (c : case04i) : bool :=
+  match run04i c with
+  | Ok r =>
+      oclass_eqb (ci_class c) COk && Bool.eqb (res_empty r) (ci_deleted c) &&
+      (ci_deleted c ||
+       match r with
+       | Some x => String.eqb (get_kind x) (ci_kind c) && String.eqb (get_name x) (ci_name c) &&
+                   String.eqb (get_namespace x) (ci_namespace c)
+       | None => false
+       end)
+  | r => oclass_eqb (ci_class c) (class_of r)
+  end.
+
+Inductive case04x := CM (c : case04) | CI (c : case04i).
+
+Definition agree04x (c : case04x) : bool :=
+  match c with CM c => agree04 c | CI c => agree04i c end.
+
 Definition mismatches04 (l : list case04) : list N := mism_from agree04 0%N l.
+Definition mismatches04x (l : list case04x) : list N := mism_from agree04x 0%N l.
